@@ -301,7 +301,17 @@ Fixpoint srun (s : sstate) (ops : list sop) : list sout :=
 Definition show_sout (o : sout) : bytes :=
   match o with OAck => B"ok" | OInvalid => B"INVALID" | OResp r => show_response r end.
 
-(* op tokens: C<name> X<name> D<name> P<name>:<rules> R<path>:<method>:<origin>:<acrm>:<acrh> *)
+(* a virtual-hosted request (Host = <bucket>.<api endpoint>) reaches the CORS middleware with the path
+   MakeVirtualHostBucketAddressingMiddleware has rewritten (SetupServer wraps CORS inside it) *)
+Definition vhost_path (bucket path : bytes) : bytes :=
+  match path with
+  | [] => slash :: bucket
+  | [c] => if beqb c slash then slash :: bucket else slash :: bucket ++ path
+  | _ => slash :: bucket ++ path
+  end.
+
+(* op tokens: C<name> X<name> D<name> P<name>:<rules> R<path>:<method>:<origin>:<acrm>:<acrh>
+              V<bucket>:<path>:<method>:<origin>:<acrm>:<acrh>   (virtual-hosted request) *)
 Definition parse_sop (t : bytes) : option sop :=
   match t with
   | [] => None
@@ -323,6 +333,16 @@ Definition parse_sop (t : bytes) : option sop :=
             | Some p, Some m, Some o, Some am, Some ah =>
                 Some (SReq p {| q_method := m; q_origin := o; q_acrm := am; q_acrh := ah |})
             | _, _, _, _, _ => None
+            end
+        | _ => None
+        end
+      else if beqb k "V"%byte then
+        match f with
+        | [b; p; m; o; am; ah] =>
+            match untok_bytes b, untok_bytes p, untok_bytes m, untok_bytes o, untok_bytes am, untok_bytes ah with
+            | Some b, Some p, Some m, Some o, Some am, Some ah =>
+                Some (SReq (vhost_path b p) {| q_method := m; q_origin := o; q_acrm := am; q_acrh := ah |})
+            | _, _, _, _, _, _ => None
             end
         | _ => None
         end
